@@ -261,6 +261,10 @@ def _expr(draw, model, env, depth):
             e, t = draw(_expr(model, env, depth - 1))
             items.append((f"k{i}", e, t))
         i = draw(st.integers(0, n - 1))
+        if draw(st.integers(0, 5)) == 0:
+            # the key that is read is written twice: the LAST definition counts (read by attribute; such a literal is not a record)
+            pre, _ = draw(_expr(model, env, 0))
+            return ["fld", ["dict", [[items[i][0], pre]] + [[k, e] for k, e, _ in items]], items[i][0], "attr"], items[i][2]
         if draw(st.integers(0, 3)) == 0:
             # an entry without a constant key (a ** mapping, a computed key) IN FRONT of the field that is read by attribute
             pre, _ = draw(_expr(model, env, 0))
